@@ -37,6 +37,9 @@ CRAFTED = [
     ("wrap-in-function", "vz.ua x:int = vz.U;\nvz.ub y:string = vz.U;\nvz.wrap {T:Type} x:%T = vz.Wrap T;\n---functions---\n@read vz.f a:(vz.wrap vz.U) = vz.Wrap (Maybe int);\n"),
     ("rpc-result-other-namespace", "vy.res x:int y:int = vy.Res;\nvy.item a:long = vy.Item;\n---functions---\n@read vz.fun key:string = vy.Res;\n@read vz.fun2 key:string n:int = Vector vy.item;\n@write vz.fun3 name:string = vy.Item;\n"),
     ("rpc-result-other-namespace-with-string", "vy.res x:int s:string = vy.Res;\n---functions---\n@read vz.fun key:string = vy.Res;\n@read vz.fun2 k:int = Vector vy.Res;\n"),
+    ("deconflict-suffixed-name-before-reserved", "vz.chunk offset:long read0:int read:int = vz.Chunk;\nvz.chunk2 write:int write0:int w:long = vz.Chunk2;\nvz.chunk3 read0:int read1:int read:int write1:int write0:int write:int = vz.Chunk3;\n"),
+    ("deconflict-template-instance-name", "vz.vectorInt0 a:int = vz.VectorInt0;\nvz.vectorInt b:int = vz.VectorInt;\nvz.h x:(vector int) y:(Vector int) = vz.H;\nvectorLong0 a:int = VectorLong0;\nvectorLong b:int = VectorLong;\nvz.g x:(vector long) = vz.G;\n"),
+    ("deconflict-constants", "vz.item0 a:int = vz.Item0;\nvz.item a:int = vz.Item;\nvz.Item00 = vz.En;\nvz.item_0 = vz.En;\n"),
     ("constructor-in-function-namespace", "vy.res x:int y:int = vy.Res;\nvz.fun key:string = vy.Res;\n"),
 ]
 KNOWN_BAD_TL2 = [("F14-bit-array", "x = var:[]bit;\n")]
